@@ -35,7 +35,7 @@ Lemma rd_resolve_written_lemma : forall d e fuel id i,
     R_obj o' (rd_sy (d_objects d) (rw_ren d) (i_val i)).
 Proof.
   intros d e fuel id i Hfile Htbl Hpre Hb Hc Hin Hf Hs Hmax Hcont W ND Hi Hr Ho Hl.
-  destruct (rd_read_at_written_lemma d e (rd_resolve fuel e [(doc_ren d id, 0)]) id i Hfile Hb Hc Hin Hf Hs Hmax Hcont W ND Hi Hr Ho Hl)
+  destruct (rd_read_at_written_step d e (rd_resolve fuel e [(doc_ren d id, 0)]) id i Hfile Hb Hc Hin Hf Hs Hmax Hcont W ND Hi Hr Ho Hl)
     as (off & o' & Hoff & Hrd & HR).
   exists o'. split; [|exact HR].
   cbn [rd_resolve fst snd]. rewrite Hpre. cbn [rd_pre_get existsb]. rewrite Htbl.
@@ -57,7 +57,7 @@ Lemma rd_resolve_written_stream_lemma : forall d e fuel id i dd data,
     rd_stream_raw (rde_file e) (mkRdObj (MoDict dd') (Some (spos, rd_len data)) false) = data.
 Proof.
   intros d e fuel id i dd data Hfile Htbl Hpre Hb Hc Hin Hf Hs Hdd Hmax o0 W ND Hi Hr Ho Hl.
-  destruct (rd_read_at_written_stream_lemma d e (rd_resolve fuel e [(doc_ren d id, 0)]) id i dd data Hfile Hb Hc Hin Hf Hs Hdd Hmax W ND Hi Hr Ho Hl)
+  destruct (rd_read_at_written_stream_step d e (rd_resolve fuel e [(doc_ren d id, 0)]) id i dd data Hfile Hb Hc Hin Hf Hs Hdd Hmax W ND Hi Hr Ho Hl)
     as (off & o' & dd' & spos & Hoff & Hrd & H2 & H3 & H4).
   exists o', dd', spos. split; [|repeat split; assumption].
   cbn [rd_resolve fst snd]. rewrite Hpre. cbn [rd_pre_get existsb]. rewrite Htbl.
